@@ -712,6 +712,13 @@ def replay(path):
             for v in r.violations:
                 print("reproduced: %s %s" % (v["key"], v["why"]))
             hit |= 1 if r.violations else 0
+        elif key.startswith("C09/rspawn-seq/") and wit.get("history_index") is not None:
+            os.environ["VERIF_SEED"] = str(w.get("seed", 1))
+            i = int(wit["history_index"])
+            r = rspawn_seq_worker(b.dir, compile_standin(b), i, i + 1, w.get("tier", "quick"))
+            for v in r.violations:
+                print("reproduced: %s %s" % (v["key"], v["why"]))
+            hit |= 1 if r.violations else 0
         elif wit.get("output_hex") is not None and "status" in wit:
             r = rspawn_worker(b.dir, compile_standin(b), [(bytes.fromhex(wit["output_hex"]), wit["status"])], w.get("tier", "quick"))
             for v in r.violations:
